@@ -123,6 +123,29 @@ NOOP_METHODS = {"clone", "to_owned", "as_ref", "iter", "copied", "cloned", "as_s
 FLIP = {">": "<", ">=": "<="}
 
 
+LETS = {}             # name -> initialiser of the single immutable `let` of that name (set per function by guard_literals)
+_LET_DEPTH = []
+INLINE_FNS = {}      # name -> the single expression that is the body of that function (set by guards.inventory)
+_INLINING = []
+
+
+def single_expression_fns(tree):
+    """functions of a file whose body is one expression: candidates for inlining into skeletons"""
+    out = {}
+    for name, f in functions(tree).items():
+        if name.startswith("test::") or name.startswith("<"):
+            continue
+        body = f.get("body") or []
+        stmts = body if isinstance(body, list) else body.get("stmts", [])
+        if len(stmts) == 1 and stmts[0].get("k") == "ExprStmt" and not stmts[0].get("semi"):
+            short = name.split("::")[-1]
+            if short in out:
+                out[short] = None       # ambiguous
+            else:
+                out[short] = stmts[0]["e"]
+    return {k: v for k, v in out.items() if v is not None}
+
+
 def pat_skel(p):
     k = p.get("k")
     if k == "PIdent":
@@ -165,6 +188,13 @@ def expr_skel(e):
     k = e.get("k")
     if k == "Path":
         p = e["path"]
+        if len(p["segs"]) == 1 and p["s"] in LETS and len(_LET_DEPTH) < 4 and p["s"] not in _LET_DEPTH:
+            # a local with a single, immutable definition stands for that definition
+            _LET_DEPTH.append(p["s"])
+            try:
+                return expr_skel(LETS[p["s"]])
+            finally:
+                _LET_DEPTH.pop()
         return "_" if len(p["segs"]) == 1 and p["s"][:1].islower() else p["s"]
     if k == "Lit":
         return repr(e.get("v"))
@@ -184,6 +214,16 @@ def expr_skel(e):
             return r
         return r + "." + e["method"] + "(" + ",".join(expr_skel(a) for a in e["args"]) + ")"
     if k == "Call":
+        if e["func"].get("k") == "Path" and e["func"]["path"]["s"] in INLINE_FNS and len(_INLINING) < 4 \
+                and e["func"]["path"]["s"] not in _INLINING:
+            # a call to a single-expression helper of the same file stands for that expression (locals are erased
+            # anyway, so no substitution is needed)
+            nm = e["func"]["path"]["s"]
+            _INLINING.append(nm)
+            try:
+                return expr_skel(INLINE_FNS[nm])
+            finally:
+                _INLINING.pop()
         return expr_skel(e["func"]) if e["func"].get("k") != "Path" else \
             e["func"]["path"]["s"] + "(" + ",".join(expr_skel(a) for a in e["args"]) + ")"
     if k == "Binary":
@@ -348,6 +388,46 @@ def _variants(ps):
     return out
 
 
+def pat_disjoint(p, q):
+    """True when no value can match both patterns (same scrutinee type assumed); False when unsure"""
+    def strip(x):
+        while x.get("k") in ("PRef", "PType") or (x.get("k") == "PIdent" and x.get("sub")):
+            x = x.get("pat") or x.get("sub")
+        return x
+    p, q = strip(p), strip(q)
+
+    def catch_all(x):
+        return x.get("k") in ("PWild", "PRest") or (x.get("k") == "PIdent" and not (x["id"][:1].isupper() or x["id"] == "None"))
+    if catch_all(p) or catch_all(q):
+        return False
+    if p.get("k") == "POr":
+        return all(pat_disjoint(a, q) for a in p["cases"])
+    if q.get("k") == "POr":
+        return all(pat_disjoint(p, a) for a in q["cases"])
+
+    def ctor(x):
+        if x.get("k") == "PIdent":
+            return x["id"]
+        if x.get("k") in ("PPath", "PTupleStruct", "PStruct"):
+            return x["path"]["s"].split("::")[-1]
+        return None
+    cp, cq = ctor(p), ctor(q)
+    if cp is not None and cq is not None:
+        if cp != cq:
+            return True
+        if p.get("k") == "PTupleStruct" and q.get("k") == "PTupleStruct" and len(p["elems"]) == len(q["elems"]):
+            return any(pat_disjoint(a, b) for a, b in zip(p["elems"], q["elems"]))
+        if p.get("k") == "PStruct" and q.get("k") == "PStruct":
+            fq = {f["name"]: f["pat"] for f in q["fields"] if "pat" in f}
+            return any(f["name"] in fq and pat_disjoint(f["pat"], fq[f["name"]]) for f in p["fields"] if "pat" in f)
+        return False
+    if p.get("k") == "PLit" and q.get("k") == "PLit":
+        return p["lit"].get("v") != q["lit"].get("v")
+    if p.get("k") == "PTuple" and q.get("k") == "PTuple" and len(p["elems"]) == len(q["elems"]):
+        return any(pat_disjoint(a, b) for a, b in zip(p["elems"], q["elems"]))
+    return False
+
+
 def cond_literals(c, sign, lets, depth=0):
     """the literals (strings) of the conjunction that `c` (sign True) or its negation (sign False) stands for.
     && / || / ! are taken apart, `matches!`, `if let`, `.is_none()` & co. become `E ~ P`, comparisons are oriented,
@@ -366,7 +446,7 @@ def cond_literals(c, sign, lets, depth=0):
         alts = sorted(" & ".join(sorted(p)) for p in parts)
         return {"(" + " | ".join(alts) + ")"}
     if k == "LetCond":
-        return {_lit_match(expr_skel(c["e"]), pat_skel(c["pat"]), sign)}
+        return {_lit_match(_scrut(c["e"], lets), pat_skel(c["pat"]), sign)}
     if k == "Macro" and c.get("path") == "matches":
         e, p = _split_top(c.get("tokens") or "")
         e = _tok_skel(e).lstrip("&")
@@ -395,6 +475,18 @@ def cond_literals(c, sign, lets, depth=0):
         return set() if (str(c.get("v")).lower() == "true") == sign else {"false"}
     s = expr_skel(c)
     return {s if sign else "!" + s}
+
+
+def _scrut(e, lets, depth=0):
+    """skeleton of a scrutinee; a local with a single definition stands for that definition"""
+    x = e
+    while x.get("k") in ("Paren", "Ref", "Group") or (x.get("k") == "Unary" and x.get("op") == "*"):
+        x = x["e"]
+    if x.get("k") == "Path" and len(x["path"]["segs"]) == 1 and depth < 4:
+        d = lets.get(x["path"]["s"])
+        if d is not None:
+            return _scrut(d, lets, depth + 1)
+    return expr_skel(e)
 
 
 def _lit_match(e, p, sign):
@@ -428,6 +520,8 @@ def guard_literals(fn, want):
     a named boolean vs its definition, swapped operands -- give the same set."""
     out = []
     lets = single_lets(fn)
+    LETS.clear()
+    LETS.update(lets)
 
     def visit(n, ctx):
         if isinstance(n, list):
@@ -448,7 +542,7 @@ def guard_literals(fn, want):
             return
         if k == "Match":
             visit(n["e"], ctx)
-            scrut = expr_skel(n["e"]).lstrip("&")
+            scrut = _scrut(n["e"], lets).lstrip("&")
             prev = []
             for a in n["arms"]:
                 ps = pat_skel(a["pat"])
@@ -458,11 +552,9 @@ def guard_literals(fn, want):
                 if a.get("guard"):
                     lits |= cond_literals(a["guard"], True, lets)
                     visit(a["guard"], ctx)
-                mine = _variants(ps)
-                for (pps, pg) in prev:
-                    theirs = _variants(pps)
-                    if mine is not None and theirs is not None and not (mine & theirs):
-                        continue        # an earlier arm for other variants says nothing about this one
+                for (pps, pg, ppat) in prev:
+                    if pat_disjoint(a["pat"], ppat):
+                        continue        # an earlier arm that cannot match the same value says nothing about this one
                     if pg is None:
                         lits.add(_lit_match(scrut, pps, False) if pps != "_" else "false")
                     elif pps == "_":
@@ -471,7 +563,7 @@ def guard_literals(fn, want):
                         inner = sorted(({_lit_match(scrut, pps, True)} if pps != "_" else set()) | cond_literals(pg, True, lets))
                         lits.add("!(" + " & ".join(inner) + ")")
                 visit(a["body"], ctx | lits)
-                prev.append((ps, a.get("guard")))
+                prev.append((ps, a.get("guard"), a["pat"]))
             return
         if k == "For":
             visit(n["iter"], ctx)
@@ -491,5 +583,8 @@ def guard_literals(fn, want):
             if isinstance(v, (dict, list)):
                 visit(v, ctx)
 
-    visit(fn.get("body"), frozenset())
+    try:
+        visit(fn.get("body"), frozenset())
+    finally:
+        LETS.clear()
     return out
